@@ -128,6 +128,9 @@ for meth in ("__getitem__", "_vindex", "_blocks"):
     if meth in col.methods:
         add("C12", col.methods[meth], ("raise",), why="Array-level refusal of an unsupported index")
 add("C12", repo.mod("dask_array.slicing._basic").func("take"), ("return", "raise"), why="take: the identity shortcut returns x only for an exact identity index; unknown sizes are refused")
+# the identity shortcut of the shuffle door: ``for group, chunk: if <not the identity run>: break`` ... ``else: return x``
+add("C12", repo.mod("dask_array._shuffle").func("_shuffle"), ("return",), extra=lambda s: isinstance(s, ast.Break),
+    why="_shuffle returns its input unchanged only when every group is exactly the run of positions of its chunk (the break leaves the identity search)")
 
 # ---- C16: refusals of invalid chunk specifications ------------------------------------------------------
 cu = repo.mod("dask_array._core_utils")
